@@ -262,7 +262,7 @@ def run(ctx: core.Ctx):
         if not same and rb["outcome"] != "harness-error":
             ctx.finding("history-differs-from-fresh-manager", f"{g}: second project on a reused manager gave {sec['outcome']} {sec.get('nbh')} x {sec.get('H')}, a fresh manager with the same configuration gives {rb['outcome']} {rb.get('nbh')} x {rb.get('H')}", rep)
     if ctx.tier == "thorough":
-        ctx.leanchecker(["GHEVerif.Props.C02"])
+        ctx.leanchecker(["GHEVerif.Props.C02", "GHEVerif.Lemmas.Pipeline"])
 
 
 def check_policy_1d(ctx, a, out_r, tr_r):
